@@ -66,7 +66,7 @@ ASSUMPTIONS = [
 TIERS = {
     # levels: (R, largest number of variants for which a state is explored with R rewrites), tried in order
     'quick': dict(R=2, levels=((2, 300),), bmax=2 << 20, seg_depth=2, full=0, multi_pads=(2,)),
-    'thorough': dict(R=3, levels=((3, 700), (2, 700)), bmax=8 << 20, seg_depth=3, full=256, multi_pads=(1, 4)),
+    'thorough': dict(R=3, levels=((3, 128), (2, 300)), bmax=4 << 20, seg_depth=3, full=128, multi_pads=(2,)),
 }
 _tier = ['quick']
 
